@@ -33,6 +33,7 @@ import SwcVerif.Model.AlgoRunLMeasure
 import SwcVerif.Model.AlgoRunNodeBranch
 import SwcVerif.Model.AlgoRunMst
 import SwcVerif.Model.AlgoRunResample
+import SwcVerif.Model.AlgoRunRaster
 import SwcVerif.Model.AlgoRunParse
 import SwcVerif.Model.AlgoRunCut
 import SwcVerif.Model.AlgoRunRepair
@@ -92,6 +93,7 @@ def dispatch (op : String) (args : List String) : String :=
   | "gtips" | "gnodebranch" | "gnode" => AlgoRun.handleNodeBranch op args
   | "gmst" => AlgoRun.handleMst args
   | "giso" | "glin" | "gsmooth" => AlgoRun.handleResample op args
+  | "gsamplers" | "gscene" | "graster" => AlgoRun.handleRaster op args
   | "gparse" => AlgoRun.handleParse args
   | "gtosubtree" | "gcutenter" | "gcutdepth" | "gcutleave" | "gcutleaveset" | "gcuttype" | "gcutorder" => AlgoRun.handleCut op args
   | "gsingleroot" => AlgoRun.handleSingleRoot args
